@@ -883,6 +883,39 @@ def build_table(I):
             return Date(rd)
         return kk
 
+    @reg("HashMap::values", "BTreeMap::values")
+    def hm_values(I, st, a, c):
+        r = a[0]
+        m = deref(I, st, r)
+        return Iter("items", [Ref(r.cell, r.path + (("k", kk),), False) for kk, _ in m.items])
+
+    @reg("HashMap::values_mut", "BTreeMap::values_mut")
+    def hm_values_mut(I, st, a, c):
+        r = a[0]
+        m = deref(I, st, r)
+        return Iter("items", [Ref(r.cell, r.path + (("k", kk),), True) for kk, _ in m.items])
+
+    @reg("HashMap::keys", "BTreeMap::keys")
+    def hm_keys(I, st, a, c):
+        m = deref(I, st, a[0])
+        return Iter("items", [Ref(st.alloc(unkey(kk)), ()) for kk, _ in m.items])
+
+    @reg("HashMap::contains_key", "BTreeMap::contains_key")
+    def hm_contains_key(I, st, a, c):
+        m = deref(I, st, a[0])
+        return m.has(keyof(deref(I, st, a[1])))
+
+    @reg("HashMap::remove", "BTreeMap::remove")
+    def hm_remove(I, st, a, c):
+        r, k = a
+        m = deref(I, st, r)
+        kk = keyof(deref(I, st, k))
+        if not m.has(kk):
+            return none()
+        old = m.get(kk)
+        I.write(st, r.cell, r.path, MapV(m.kind, [(x, v) for x, v in m.items if x != kk]))
+        return some(old)
+
     @reg("BTreeMap::append")
     def bt_append(I, st, a, c):
         r, o = a
